@@ -1,6 +1,6 @@
 (* C17 -- streaming_body: coding headers agree with negotiation and with the body. *)
 From Coq Require Import String.
-From HS Require Import Lib.Base Lib.Bytes Model.Negot Model.Builder Proofs.NegotP.
+From HS Require Import Lib.Base Lib.Bytes Model.Negot Model.Builder Proofs.NegotP Proofs.BuilderP.
 
 (* For every method, Accept-Encoding value (any bytes), gzip level and chunk size >= 1:
    the response always carries Vary: accept-encoding; it carries Content-Encoding: gzip exactly
@@ -27,5 +27,16 @@ Theorem c17_negotiation_is_c16 : forall l, l <> [] -> Forall elem_wf l ->
   should_gzip (Some (Spec.AcceptEncoding.render_list l)) = Ok (Spec.AcceptEncoding.prefers_gzip l).
 Proof. exact should_gzip_grammar. Qed.
 
+(* The builder's options may be set any number of times, in any order (layered configuration): only
+   the value set last counts, and neither the negotiation result nor the method is affected -- so the
+   statement above holds with `level` and `cap` read as "the last level / chunk size set". *)
+Theorem c17_builder_calls : forall meth ae cs b, streaming_body meth ae = Ok b ->
+  0 < last_chunk cs (b_chunk_size b) ->
+  build (fold_left bapply cs b) =
+  build {| b_chunk_size := last_chunk cs 4096; b_gzip_level := last_level cs 6;
+           b_should_gzip := b_should_gzip b; b_body_needed := b_body_needed b |}.
+Proof. exact build_after_calls. Qed.
+
 Print Assumptions c17_headers_and_writer.
 Print Assumptions c17_negotiation_is_c16.
+Print Assumptions c17_builder_calls.
